@@ -81,5 +81,15 @@ func specs() map[string]*spec {
 		Rule: "one fault per otherwise conformant exchange: the 7 nonce/server_nonce comparison sites x {bit flips (4 positions quick, all 128 thorough), fresh random, the other nonce, zero}; fingerprint lists {empty, one wrong, many wrong, off by one, byte-swapped}; encrypted answer {flip in first/middle/last block, hash altered, content altered with stale hash, length not a multiple of 16, truncated, empty, 16/32 extra padding bytes}; new_nonce_hash1 {bit flips, other digests, zero, random}; alternative constructors; oracle: CreateConnection returns a non-nil error (no panic, no stall), no session file, zero encrypted frames at the server incl. a drain; distinct = distinct (site, corruption, position)",
 		Assumptions: []string{"refserver (conformant apart from the injected fault)", "stall = identical goroutine dumps with every client goroutine parked; watchdog firing without that signature is inconclusive"},
 	})
+	add(&spec{ID: "C09", Level: "exploration", RaceE1: true,
+		WLs: []wlSpec{{Name: "c09", Race: true, TimeoutS: 1200}},
+		Rule: "scenarios = 1-48 goroutines x 1-5 requests of five result kinds (object, Bool, Vector<int>, Vector<long>, Vector<object>) through MakeRequest/MakeRequestWithHintToDecoder or the generated telegram.Client methods, against a resumed session; the reference server holds answers and releases them shuffled, grouped into plain messages/containers, results and/or whole messages gzip-packed, a scripted fraction as rpc_error with a per-request code; PRNG delays at the send/receive hook points; every request carries a unique uid and the answer a stamp f(uid); oracle: every call returns exactly once with its own stamp (or its own rpc_error), no duplicates, no caller panic, child alive, no stall; distinct = distinct hook-order signatures + distinct answer-group shapes",
+		Assumptions: []string{"refserver", "hook points H3 only add delays at existing suspension points", "race reports informational except escalation E1 (both accesses inside runtime map routines)"},
+	})
+	add(&spec{ID: "C10", Level: "exploration", RaceE1: true, RaceE2: true,
+		WLs: []wlSpec{{Name: "c10", Race: true, TimeoutS: 1200}},
+		Rule: "monitor over the reference server's log of decrypted client messages in arrival order (msg_id multiple of 4, strictly increasing per session, seconds part from the clock; seq_no odd iff content-related, never decreasing) plus, at quiescence, every content-related server message named in a msgs_ack; workloads: (A) the C09 scenario family, (B) bursts of 2-32 goroutines held right after obtaining their msg_id and released newest-first (bounded-patience gate), (C) injected clocks: frozen for 6 reads, stepping back 3 s, 15.6 ms granularity, (D) server histories mixing update objects, new_session_created, pong, msgs_ack, content-related or not, plain or in containers, followed by a probe; distinct = distinct hook-order signatures / burst sizes / clock modes / histories",
+		Assumptions: []string{"refserver", "clock override H4", "gate has bounded patience: steering can fail (fewer interleavings) but cannot wedge the client or create an impossible schedule"},
+	})
 	return m
 }
